@@ -97,7 +97,7 @@ class C02(fw.Prop):
             "every diagnostic x every release reason x plain and ciphered user-information from the C01 generator x optional components "
             "absent/empty/long; inconsistent combinations (mechanism none with a password, LLS without one) generated on purpose; each value: "
             "to_bytes() = Spec.Acse.encode (driver), independent BER nesting walk, from_bytes(to_bytes()) canonically equal; "
-            "every decoded AARQ/AARE/RLRQ/RLRE is overwritten in place (fields, user-information) and the bytes decoded again; non-trivial = distinct protocol line")
+            "every decoded AARQ/AARE/RLRQ/RLRE is overwritten in place (fields, user-information) and the bytes decoded again; ciphered user-information of 100..1000 and 65 600 bytes in every APDU kind; non-trivial = distinct protocol line")
     trusted_base = ["Spec.Acse is my reading of the Green Book ACSE APDUs", "C01 for the xDLMS APDU inside user-information",
                     "asn1crypto's DER writer for the result-source-diagnostic"]
     assumptions = ["the pass-through components the library gives no meaning to (called-AP-title etc., implementation-information) are absent",
